@@ -298,9 +298,21 @@ def run(prog, tier):
                                  f"(only a proposal that failed uniform < A may be rejected)")
             # a bounded retry loop (`for attempt in range(n)`) that simply runs out leaves the LAST REJECTED proposal in place unless an
             # `else` suite deals with the exhaustion (as the Hamiltonian step does, by keeping the old point)
-            if isinstance(loop, ast.For) and not loop.orelse:
-                why_p.append(f"the retry loop `for {U(loop.target)} in {U(loop.iter)[:40]}` has no `else`: when every attempt is rejected the code goes "
-                             f"on with a proposal that failed the test")
+            def own_breaks(stmts):
+                out_ = []
+                for s_ in stmts:
+                    if isinstance(s_, ast.Break):
+                        out_.append(s_)
+                    elif isinstance(s_, (ast.For, ast.While)):
+                        continue
+                    else:
+                        for fld_ in ("body", "orelse", "finalbody"):
+                            out_ += own_breaks(getattr(s_, fld_, []) or [])
+                return out_
+            # (when the accepted path leaves by `return`, what follows the loop is the exhaustion path alone - nothing to confuse)
+            if isinstance(loop, ast.For) and not loop.orelse and own_breaks(loop.body):
+                why_p.append(f"the retry loop `for {U(loop.target)} in {U(loop.iter)[:40]}` has no `else` and is left by `break` on acceptance: when every attempt is "
+                             f"rejected the code goes on, after the loop, as if the last proposal had passed the test")
             obs.append(struct_ob("accept-paths", construct, not why_p,
                                  "every path through the retry loop must end in: accepted by the test, accepted because A >= 1, or rejected "
                                  "by the test; " + "; ".join(why_p[:2]), rel, loop.lineno, slots={"paths": len(_loop_paths(loop.body))}))
